@@ -13,7 +13,10 @@ from ..common import NPROC, PY, Verdict, child_env, digest, rng_for, seed, tier
 PROP = "C19"
 N = {"quick": 400, "thorough": 8000}
 HOSTILE = ['"', '""', '"""', '""""', '"""""', "'''", "'", "\\", "\\\\", '\\"""', '\\"', 'r"""', '"""\\', "\n", "\t", " ", "é", "日本", "😀", "ж",
-           "\\x", "\\N", "\\u12", "\\U0001", "\\0", "#", "{", "}", "%s", "{0}", "$HOME", "`", ";", "x", "abc", "-", "--", "=", "\r", "\x0c"]
+           "\\x", "\\N", "\\u12", "\\U0001", "\\0", "#", "{", "}", "%s", "{0}", "$HOME", "`", ";", "x", "abc", "-", "--", "=", "\r", "\x0c",
+           # invisible / directional characters (what a "sanitising" step might strip), alone and between quotes
+           "\u202e", "\u202c", "\u2066", "\u2069", "\u200b", "\ufeff", "\u00a0", "\x7f",
+           '"\u202e"\u202c"', '"\u200b"\u200b"', '"\u2066""', '""\ufeff"', '"\x7f"\x7f"\x7f"']
 FWS = ["base", "pydantic", "attrs", "dataclasses", "sqlmodel"]
 
 
@@ -84,7 +87,11 @@ def gen_case(rng, i):
         o["extra"] = ["--dkf", hostile(rng, 2).replace("\x00", "") or "x"]
         if o["extra"][1].startswith("-"):
             o["extra"][1] = "f" + o["extra"][1]
-    return {"i": i, "nonce": nonce, "preamble": pre, "pkind": kind, "fname": fname, "samples": samples, "o": o}
+    case = {"i": i, "nonce": nonce, "preamble": pre, "pkind": kind, "fname": fname, "samples": samples, "o": o}
+    if i % 5 == 3:
+        other = "EARLIER_" + digest([i, "other"])[:10]
+        case["reuse_after"] = {"fw": rng.choice(FWS), "preamble": rng.choice([f"# {other}", f"{other} = 1", f'{other} = """x"""\nY = 2']), "nonce": other}
+    return case
 
 
 def argv_of(case, with_preamble=True):
@@ -105,6 +112,19 @@ def mask(s):
     return s
 
 
+REUSE = """
+import json, sys
+from json_to_models.cli import Cli
+first, second = json.loads(sys.argv[1])
+cli = Cli()
+cli.parse_args(first)
+cli.run()
+cli.parse_args(second)
+sys.argv = ["json2models"] + second
+sys.stdout.buffer.write((cli.run() + "\\n").encode("utf-8"))
+"""
+
+
 def run_one(case, tmp):
     d = os.path.join(tmp, str(case["i"]))
     os.makedirs(d)
@@ -117,9 +137,14 @@ def run_one(case, tmp):
             json.dump(case["samples"], f)
     argv = argv_of(case)
     env = child_env({"PYTHONIOENCODING": "utf-8"})
-    r = subprocess.run([PY, "-m", "json_to_models"] + argv, capture_output=True, cwd=d, env=env, timeout=300)
+    if case.get("reuse_after"):
+        # one Cli object configured twice in one process: first with another preamble, then with this case's command line
+        first = ["-m", "Model", case["fname"], "-f", case["reuse_after"]["fw"], f"--preamble={case['reuse_after']['preamble']}"]
+        r = subprocess.run([PY, "-c", REUSE, json.dumps([first, argv])], capture_output=True, cwd=d, env=env, timeout=300)
+    else:
+        r = subprocess.run([PY, "-m", "json_to_models"] + argv, capture_output=True, cwd=d, env=env, timeout=300)
     r0 = None
-    if case["pkind"] in ("ws", "empty"):
+    if case["pkind"] in ("ws", "empty") or (case.get("reuse_after") and case["pkind"] == "none"):
         r0 = subprocess.run([PY, "-m", "json_to_models"] + argv_of(case, with_preamble=False), capture_output=True, cwd=d, env=env, timeout=300)
     return argv, r, r0
 
@@ -148,6 +173,8 @@ def judge(case, argv, r, r0):
     pre = case["preamble"]
     stripped = (pre or "").strip()
     body_text = "\n".join(lines[first.end_lineno:])
+    if case.get("reuse_after") and case["reuse_after"]["nonce"] in body_text:
+        W("preamble-of-an-earlier-configuration-emitted", f"the module carries {case['reuse_after']['nonce']}, the preamble of the Cli object's previous configuration")
     if stripped:
         n = body_text.count(case["nonce"])
         if n != 1:
@@ -200,7 +227,8 @@ def main():
                 "string, def) carrying a per-case nonce, or empty / whitespace-only / absent; x 5 frameworks x flat/nested. Oracle on "
                 "ast.parse(stdout): first statement is the header string; the text between the last import and the first class equals the "
                 "stripped preamble and the nonce occurs exactly once after the header; blank preamble == no preamble. non-trivial = argv "
-                "containing a quote or a backslash",
+                "containing a quote or a backslash. 1 case in 5 runs its command line on a Cli object that was configured and run before with "
+                "another preamble (same process)",
                 ["model names are plain identifiers; preambles contain no import/class statements so they can be located unambiguously"])
     tmp = tempfile.mkdtemp(prefix="j2mverif_c19_")
     try:
@@ -209,7 +237,7 @@ def main():
         for c, (argv, r, r0) in done:
             wit, why = judge(c, argv, r, r0)
             joined = " ".join(argv)
-            cnt = {"cli_runs": 1 + (r0 is not None), "pre_" + c["pkind"]: 1, "hostile_filename": int(c["fname"] != "in.json"),
+            cnt = {"cli_runs": 1 + (r0 is not None), "cli_object_reconfigured": int(bool(c.get("reuse_after"))), "pre_" + c["pkind"]: 1, "hostile_filename": int(c["fname"] != "in.json"),
                    "argv_with_triple_quote": int('"""' in joined), "argv_with_backslash": int("\\" in joined), "argv_with_newline": int("\n" in joined)}
             if wit is None:
                 v.add({"argv": argv}, {"status": "inconclusive", "why": why, "witnesses": [], "counters": cnt})
@@ -220,4 +248,4 @@ def main():
     finally:
         shutil.rmtree(tmp, ignore_errors=True)
     return v.finish(floor_nontrivial=50, monitors_required=("cli_runs", "argv_with_triple_quote", "argv_with_backslash", "argv_with_newline",
-                                                            "hostile_filename", "pre_ws", "pre_tq"), max_inconclusive_frac=0.15)
+                                                            "hostile_filename", "pre_ws", "pre_tq", "cli_object_reconfigured"), max_inconclusive_frac=0.15)
